@@ -103,18 +103,19 @@ func c09RunRacing(rep *kit.Report, rng *kit.RNG, idx int) {
 	extra, _ := c09Plan(rng, maxSeg, &ts, 24, nil)
 	flat := extra // one batch per Append call
 	var (
-		started   atomic.Bool
-		startCh   = make(chan struct{})
-		reqCh     = make(chan int)
-		doneCh    = make(chan error)
-		hookMu    sync.Mutex
-		hookRNG   = kit.NewRNG(rng.Uint64())
-		occ       = map[string]int{}
-		gateFired int
-		watchdog  atomic.Bool
-		appendErr error
-		appended  []vfRec // written by the appender goroutine, read after it is joined
-		wg        sync.WaitGroup
+		started      atomic.Bool
+		startCh      = make(chan struct{})
+		reqCh        = make(chan int)
+		doneCh       = make(chan error, 1)
+		hookMu       sync.Mutex
+		hookRNG      = kit.NewRNG(rng.Uint64())
+		occ          = map[string]int{}
+		gateFired    int
+		watchdog     atomic.Bool
+		appenderBusy atomic.Bool
+		appendErr    error
+		appended     []vfRec // written by the appender goroutine, read after it is joined
+		wg           sync.WaitGroup
 	)
 	isPoint := map[string]bool{}
 	for _, p := range c09HookPoints {
@@ -141,14 +142,20 @@ func c09RunRacing(rep *kit.Report, rng *kit.RNG, idx int) {
 		if started.CompareAndSwap(false, true) {
 			close(startCh)
 		}
-		if want > 0 {
-			reqCh <- want
+		if want > 0 && !watchdog.Load() && !appenderBusy.Load() {
+			// (a hook point reached from inside the appender's own Append is
+			// never a gate: the cleaner is the goroutine being held)
 			select {
-			case err := <-doneCh:
-				if err == nil {
-					hookMu.Lock()
-					gateFired++
-					hookMu.Unlock()
+			case reqCh <- want:
+				select {
+				case err := <-doneCh:
+					if err == nil {
+						hookMu.Lock()
+						gateFired++
+						hookMu.Unlock()
+					}
+				case <-time.After(60 * time.Second):
+					watchdog.Store(true)
 				}
 			case <-time.After(60 * time.Second):
 				watchdog.Store(true)
@@ -196,7 +203,9 @@ func c09RunRacing(rep *kit.Report, rng *kit.RNG, idx int) {
 			for {
 				select {
 				case n := <-reqCh:
+					appenderBusy.Store(true)
 					err := appendSome(n)
+					appenderBusy.Store(false)
 					if err != nil {
 						appendErr = err
 					}
@@ -252,7 +261,10 @@ func c09RunRacing(rep *kit.Report, rng *kit.RNG, idx int) {
 	if mode == "gated" {
 		close(stop)
 	}
-	wg.Wait()
+	if !c09WaitTimeout(&wg, 60*time.Second) {
+		rep.Inconc(fmt.Sprintf("case %d: watchdog while waiting for the appender goroutine to finish", idx))
+		return
+	}
 	if cerr != nil {
 		e.fail("C09:clean-error", fmt.Sprintf("Clean racing with an appender failed: %v", cerr), nil)
 		return
@@ -409,4 +421,16 @@ func (e *c09Env) raceCheck(rng *kit.RNG, pre, post []c09Seg, n0 int64, early boo
 	}
 	e.checkReads(rng, pre, post, k, wit)
 	return k, rolled, true
+}
+
+// c09WaitTimeout waits for wg with a watchdog (expiry = inconclusive, never a verdict).
+func c09WaitTimeout(wg *sync.WaitGroup, d time.Duration) bool {
+	ch := make(chan struct{})
+	go func() { wg.Wait(); close(ch) }()
+	select {
+	case <-ch:
+		return true
+	case <-time.After(d):
+		return false
+	}
 }
